@@ -337,9 +337,19 @@ func squash(v string) string {
 			bs = append(bs, c)
 		}
 		p = string(bs)
-		p = strings.ReplaceAll(p, "x-gzip", "gzip")
-		p = strings.ReplaceAll(p, "x-compress", "compress")
-		parts[i] = p
+		// the aliases of RFC 9110 §8.4.1 are names of codings: a member that IS one, not
+		// every member that contains its text ("lx-gzip" is no spelling of "lgzip")
+		name, rest, _ := strings.Cut(p, ";")
+		switch name {
+		case "x-gzip":
+			name = "gzip"
+		case "x-compress":
+			name = "compress"
+		}
+		if len(rest) > 0 || strings.HasSuffix(p, ";") {
+			name += ";" + rest
+		}
+		parts[i] = name
 	}
 	var keep []string
 	seen := map[string]bool{}
@@ -360,13 +370,69 @@ func SurelyDifferent(a, b []string) bool {
 	jb := squash(strings.Join(b, ","))
 	if strings.Contains(ja, ";q=") || strings.Contains(jb, ";q=") {
 		// weights (q-values): how a cache ranks and merges weighted members is its own
-		// business; only judged when one side is empty
+		// business; only judged when one side is empty, or when the two lists name the very
+		// same members and one of them refuses (weight zero, in any of its spellings) a member
+		// the other accepts
 		if (ja == "") != (jb == "") {
 			return true
 		}
-		return false
+		return refusalDiffers(ja, jb)
 	}
 	return ja != jb
+}
+
+// refusalDiffers: both squashed lists consist of the same members (weights aside), each at
+// most once, and at least one member has the weight zero on one side and a positive (or no)
+// weight on the other: "not acceptable" against "acceptable" (RFC 9110 §12.4.2).
+func refusalDiffers(ja, jb string) bool {
+	parse := func(j string) (map[string]bool, bool) {
+		out := map[string]bool{} // member -> refused
+		for _, m := range strings.Split(j, ",") {
+			name, w := m, ""
+			if i := strings.Index(m, ";q="); i >= 0 {
+				name, w = m[:i], m[i+3:]
+				if strings.Contains(w, ";") {
+					return nil, false // parameters after the weight: not judged
+				}
+			}
+			if _, dup := out[name]; dup || name == "" {
+				return nil, false
+			}
+			refused := false
+			switch w {
+			case "":
+			case "0", "0.", "0.0", "0.00", "0.000":
+				refused = true
+			default:
+				// a well-formed positive qvalue (RFC 9110 §12.4.2), nothing else is judged
+				ok := len(w) <= 5 && (w[0] == '0' || w[0] == '1') && (len(w) == 1 || w[1] == '.')
+				for i := 2; ok && i < len(w); i++ {
+					ok = w[i] >= '0' && w[i] <= '9' && (w[0] == '0' || w[i] == '0')
+				}
+				if !ok {
+					return nil, false
+				}
+			}
+			out[name] = refused
+		}
+		return out, true
+	}
+	a, oka := parse(ja)
+	b, okb := parse(jb)
+	if !oka || !okb || len(a) != len(b) {
+		return false
+	}
+	differs := false
+	for name, ra := range a {
+		rb, ok := b[name]
+		if !ok {
+			return false
+		}
+		if ra != rb {
+			differs = true
+		}
+	}
+	return differs
 }
 
 // OnlyRefusals reports whether every member of the (non-empty) value carries the weight 0:
@@ -399,6 +465,55 @@ func SurelySame(a, b []string) bool {
 	}
 	// several field lines are one combined list value (RFC 9110 §5.3)
 	return strings.Join(a, ", ") == strings.Join(b, ", ")
+}
+
+// listFields: request header fields whose values the cache's normalisation table treats as
+// lists whose member order and whose whitespace around the commas carry no meaning.
+var listFields = map[string]bool{"Accept": true, "Accept-Charset": true, "Accept-Language": true, "Accept-Encoding": true, "Te": true}
+
+// DocumentedSame: the two values of the selecting header field are spellings of one value
+// under the normalisation the cache itself lays down for that field (its table of list
+// fields): the same members, whatever their order and the blanks around the commas. Only
+// plain members are judged - no parameters, no weights, no repeated or empty members, no
+// aliases - so that nothing but order and whitespace distinguishes the two spellings.
+func DocumentedSame(field string, a, b []string) bool {
+	if SurelySame(a, b) {
+		return true
+	}
+	if !listFields[field] || len(a) == 0 || len(b) == 0 {
+		return false
+	}
+	members := func(lines []string) ([]string, bool) {
+		var out []string
+		seen := map[string]bool{}
+		for _, m := range strings.Split(strings.Join(lines, ","), ",") {
+			m = strings.Trim(m, " \t")
+			if m == "" || seen[m] || strings.HasPrefix(m, "x-") {
+				return nil, false
+			}
+			for i := 0; i < len(m); i++ {
+				c := m[i]
+				if !(c >= 'a' && c <= 'z' || c >= 'A' && c <= 'Z' || c >= '0' && c <= '9' || c == '-' || c == '/' || c == '*' || c == '+' || c == '.') {
+					return nil, false
+				}
+			}
+			seen[m] = true
+			out = append(out, m)
+		}
+		sort.Strings(out)
+		return out, len(out) > 0
+	}
+	ma, oka := members(a)
+	mb, okb := members(b)
+	if !oka || !okb || len(ma) != len(mb) {
+		return false
+	}
+	for i := range ma {
+		if ma[i] != mb[i] {
+			return false
+		}
+	}
+	return true
 }
 
 // Components returns the loose-normalised components of a URI (for classification only).
